@@ -225,6 +225,9 @@ def _tap():
         _TAP = _LogTap()
         log.addHandler(_TAP)
         log.propagate = False
+        # the harness silences the trimesh logger; the tap needs WARNING records (nothing is
+        # printed: the tap is the only handler and propagation is off)
+        log.setLevel(logging.WARNING)
     return _TAP
 
 
@@ -332,7 +335,8 @@ def check_components(J, R, adjacency, nF):
     want_all = _fs(comps)
     nodes = np.arange(nF)
     for engine in ("scipy", "networkx", None):
-        for min_len in (1, 2, 3, 4):
+        # the automatic engine is the scipy one: two settings are enough to see that
+        for min_len in ((1, 2, 3, 4) if engine else (1, 3)):
             route = "engine=%s" % engine
 
             def cc(engine=engine, min_len=min_len, route=route):
@@ -538,7 +542,11 @@ def check_mesh(run, tag, F, nv, V=None, closed=False, facets=False, split_defaul
 
     distinct_coords = len(set(map(tuple, V.tolist()))) == len(V)
     if distinct_coords:
-        for engine in ("scipy", "networkx"):
+        # small enumerated arrays alternate the engine (both see every class), the rest use both
+        engines = ("scipy", "networkx")
+        if tag.startswith(("exh_", "sample_")):
+            engines = (engines[int(F.sum()) % 2],)
+        for engine in engines:
             J.guard("split", "engine=%s" % engine, lambda engine=engine: split(engine))
     if split_default and distinct_coords:
         def split_wt():
@@ -677,10 +685,10 @@ def structured(run):
     check_free_only(run, "empty", E)
 
 
-def soups(run, budget_frac):
+def soups(run, budget_frac, at_least=0):
     rng = run.rng
     i = 0
-    while not run.out_of_time(budget_frac):
+    while i < at_least or not run.out_of_time(budget_frac):
         i += 1
         r = i % 8
         if r in (0, 1, 2):  # v=5 small arrays
@@ -712,7 +720,7 @@ def workload(run):
     _tap()
     structured(run)
     # exhaustive v=4, n<=2
-    idx = 0
+    idx = mine = 0
     done = True
     for n in (1, 2):
         for F in G.all_face_arrays(4, n):
@@ -720,12 +728,15 @@ def workload(run):
             if not run.mine(idx):
                 continue
             check_mesh(run, "exh_v4_n%d" % n, F, 4)
-            if idx % 256 == 0 and run.out_of_time(0.8):
+            mine += 1
+            # a fixed amount of work (4160 arrays): only the generous watchdog may cut it
+            if mine % 128 == 0 and run.out_of_time(3.0):
                 done = False
                 break
         if not done:
             break
     run.note("exhaustive_v4_n<=2_complete", done)
+    run.note("seconds_when_exhaustive_n<=2_finished", round(run.elapsed(), 1))
     if not done:
         run.inconclusive("exhaustive v=4 n<=2 enumeration cut short by the budget")
     if run.tier == "thorough":
@@ -739,18 +750,23 @@ def workload(run):
             if not run.mine(k):
                 continue
             check_mesh(run, "exh_v4_n3", np.array(combo, dtype=np.int64), 4)
-            if k % 512 == 0 and run.out_of_time(0.7):
+            mine += 1
+            if mine % 128 == 0 and run.out_of_time(0.7):
                 complete = False
                 break
         run.note("exhaustive_v4_n3_complete_in_this_shard", complete)
         run.count("v4_n3_shards_complete" if complete else "v4_n3_shards_cut")
     else:
         rng = run.rng
-        while not run.out_of_time(0.6):
+        rounds = 0
+        while rounds < 4 or not run.out_of_time(0.6):
+            rounds += 1
             for _ in range(50):
                 check_mesh(run, "sample_v4_n3", rng.integers(0, 4, size=(3, 3)), 4)
-    soups(run, 0.92)
-    run.note("vertex_faces_loop_fallbacks", _tap().fallback)
+    soups(run, 0.92, at_least=400)
+    run.count("vertex_faces_loop_fallbacks", _tap().fallback)
+    if run.shard[0] == 0 and _tap().fallback == 0:
+        run.inconclusive("the loop fallback of vertex_face_indices was never observed (log tap silent)")
 
 
 def replay(run, case):
